@@ -4,7 +4,7 @@ use super::rank::Rank;
 ///
 /// This is a simplified version of the hand's value, and does not include the hand's kicker cards.
 /// The value is ordered by the hand's Strength, and the kicker cards are used to break ties.
-#[cfg(feature = "shortdeck")]
+#[cfg(not(feature = "shortdeck"))]
 #[derive(Debug, Clone, Copy, Eq, PartialEq, PartialOrd, Ord)]
 pub enum Ranking {
     HighCard(Rank),        // 4 kickers
@@ -18,7 +18,7 @@ pub enum Ranking {
     StraightFlush(Rank),   // 0 kickers
     MAX,                   // useful for showdown implementation
 }
-#[cfg(not(feature = "shortdeck"))]
+#[cfg(feature = "shortdeck")]
 #[derive(Debug, Clone, Copy, Eq, PartialEq, PartialOrd, Ord)]
 pub enum Ranking {
     HighCard(Rank),        // 4 kickers
